@@ -41,6 +41,11 @@ def gen_tie_family(rng):
     for e in errs:
         e["w"] = w
     pen = rng.choice([0, 0.1, 0.3])
+    if rng.random() < 0.5:
+        # near ties: objectives of the one-hot assignments differ by a few thousandths (more than the
+        # solver precision of 1e-5, less than the solution precision of 1e-2)
+        for e in errs:
+            e["target"] = round(c + rng.choice([0, 0.001, 0.002, 0.004, 0.007]), 3)
     return {"bins": names, "errs": errs, "card": [{"idx": list(range(nb)), "op": "==", "k": rng.choice([1, 1, 2])}],
             "order": [], "lin": {str(j): pen for j in range(nb)} if pen else {}, "prods": [],
             "gap": rng.choice([0, 0, 0.1]), "limit": None}
